@@ -19,7 +19,9 @@ TRACE_FILES = ("ecdsa/ellipticcurve.py", "ecdsa/keys.py", "ecdsa/ecdsa.py",
 
 
 def toy():
-    return catalog.first("h1", "n>p", min_n=19, max_n=31)
+    """n = 29: the lazily built table then has exactly one entry more than
+    multipliers below 2n need (as on production curves)"""
+    return catalog.first("h1", "n>p", min_n=29, max_n=31)
 
 
 def cof_toy():
@@ -147,6 +149,7 @@ def ops_table():
         "G*5": lambda e: aff(e.ec, e.G * 5),
         "11*G": lambda e: aff(e.ec, 11 * e.G),
         "G*(n-1)": lambda e: aff(e.ec, e.G * (e.t.n - 1)),
+        "G*(2n-1)": lambda e: aff(e.ec, e.G * (2 * e.t.n - 1)),
         "P*3": lambda e: aff(e.ec, e.P * 3),
         "P*(n+2)": lambda e: aff(e.ec, e.P * (e.t.n + 2)),
         "P+G": lambda e: aff(e.ec, e.P + e.G),
@@ -183,7 +186,7 @@ def probe(e):
     denote their values, a table - if present - is complete"""
     ec, n = e.ec, e.t.n
     out = []
-    for k in (1, 2, 5, n - 1, n + 3):
+    for k in (1, 2, 5, n - 1, n + 3, 2 * n - 1):
         out.append(aff(ec, e.G * k))
         out.append(aff(ec, e.curve.generator * k))
     out.append(aff(ec, e.P))
